@@ -436,6 +436,8 @@ Definition table : list (Z * (list Z -> res)) :=
     e "int.bits"%opname (fun a => match a with [x; ax] =>
         let x := int_in ax x in
         Ok [bitlen x; b2z (x <? 0); b2z (Z.odd x); b2z (x =? 0); b2z (x =? 1); b2z (Z.abs x =? 1)] | _ => Panic end);
+    (* 64-bit conversions: v given as a signed 64-bit value; outputs value, |v| mod 2^64 *)
+    e "int.conv64"%opname (fun a => match a with [v] => Ok [v; Z.abs v mod 2 ^ 64; v] | _ => Panic end);
     e "int.twos"%opname (fun a => match a with [x; ax] => Ok (twos_bytes (int_in ax x) ax) | _ => Panic end);
     e "int.settwos"%opname (fun a => match a with [] => Refuse | _ => Ok [twos_value a] end);
     e "int.bytes"%opname (fun a => match a with [x; ax] =>
